@@ -42,9 +42,9 @@ var strValPool = []string{
 }
 
 var intValid = []string{"0", "7", "-7", "+7", "007", "42", "123456", "-1", "9223372036854775807", "-9223372036854775808", "1", "2", "3", "10"}
-var intInvalid = []string{"", " 1", "1 ", "1.0", "1e3", "0x10", "1_000", "１２", "9223372036854775808", "-9223372036854775809", "abc", "1a", "a1", "--1", "+-1", "1..", "..1", "NaN", "12abc", "0b1", "٣", "1\n", "\n1", "1=2", "="}
+var intInvalid = []string{"1..3", "3..7", "-2..2", "0..1", "", " 1", "1 ", "1.0", "1e3", "0x10", "1_000", "１２", "9223372036854775808", "-9223372036854775809", "abc", "1a", "a1", "--1", "+-1", "1..", "..1", "NaN", "12abc", "0b1", "٣", "1\n", "\n1", "1=2", "="}
 var floatValid = []string{"0", "1.5", "-1.5", "+2.25", ".5", "5.", "1e3", "1E-3", "007", "0x1p-2", "NaN", "Inf", "-Inf", "+Inf", "inf", "nan", "infinity", "1e308", "-0", "4.9e-324", "1e-400", "123456789.125", "3", "0x10", "0X1P+4"}
-var floatInvalid = []string{"", " 1", "1 ", "1e", "e1", "1e309", "-1e309", "1_000", "１.５", "abc", "1.2.3", "1,5", "--1", "0x", "0x1", "1..3", ".", "+", "1f", "1\n", "NaNx", "in", "1=2", "="}
+var floatInvalid = []string{"1..3", "1.5..2.5", "", " 1", "1 ", "1e", "e1", "1e309", "-1e309", "1_000", "１.５", "abc", "1.2.3", "1,5", "--1", "0x", "0x1", "1..3", ".", "+", "1f", "1\n", "NaNx", "in", "1=2", "="}
 var intRanges = []string{"1..3", "-2..2", "0..1", "7..10", "+1..+2", "-5..-3", "1..100"}
 var intRangesBad = []string{"3..1", "1..1", "1..3..5", "a..b", "1..b", "..", "1...3"}
 var mapValid = []string{"k=v", "a=b", "k=a=b", "k==", "k=", "=v", "=", "K=v", "key=value with space", "k=\n", "é=日本", "k=-x", "k=--", "a=1", "b=2", "k=v2", "x=y=z=w"}
@@ -74,6 +74,7 @@ type GenCfg struct {
 	Required      bool
 	NoFn          bool
 	MixedUnknown  bool // allow per-command unknown-mode overrides
+	NoCmdRO       bool // never set require-order on a sub-command only
 	Descriptions  bool
 	Valid         bool // allow ValidValues / SuggestedValues
 	SetCalled     bool
@@ -148,6 +149,9 @@ func (g *genCtx) opt(used map[string]bool, idx int) OptSpec {
 	}
 	if o.Name == "-" && !o.Kind.IsFlag() {
 		o.Kind = KBool
+	}
+	if len(o.Aliases) >= 2 {
+		o.AliasSplit = rapid.Bool().Draw(t, "aliassplit")
 	}
 	o.UseVar = rapid.Bool().Draw(t, "usevar")
 	switch o.Kind {
@@ -231,6 +235,9 @@ func (g *genCtx) cmd(name string, depth int, used map[string]bool) CmdSpec {
 			}
 			if g.cfg.NoFn && rapid.IntRange(0, 6).Draw(t, "nofn") == 0 {
 				ch.NoFn = true
+			}
+			if g.cfg.RequireOrder == 1 && !g.cfg.NoCmdRO && rapid.IntRange(0, 7).Draw(t, "cmdro") == 0 {
+				ch.RequireOrder = true
 			}
 			c.Cmds = append(c.Cmds, ch)
 		}
